@@ -35,6 +35,25 @@ def check(run):
             run.violation(sig, text, {"case": c, "outcome": r.get("outcome")})
         if len(run.samples) < 2 and rep:
             run.sample({"options": c["options"], "statuses": {"%s %s" % k: v["status"] for k, v in list(runoracle._results_of_report(rep).items())[:12]}})
+    # skipped although nothing failed: quiet projects interrupted by Ctrl-C at a random step of the main loop; only the success
+    # flags are judged (in-flight code is outside the fragment of layer 3: layers 1 and 2 only)
+    quiet = dict(PROFILE, p_fail=0.0, p_spawn=0.0)
+    icases = engine.gen_cases(run, 30 if run.tier == "quick" else 600, profile=quiet, threads=(1, 2, 3), prefix="vi")
+    for c in icases:
+        c["interrupt_at"] = run.rng.randint(0, 8)
+    ires = engine.cosim(run, icases, layers=(1, 2))
+    for c in icases:
+        r = ires.get(c["id"]) or {"outcome": ["hang", "no result"]}
+        run.evaluations += 1
+        run.count("interrupted_quiet_runs")
+        rep = r.get("report")
+        if rep:
+            st = [x["status"] for x in runoracle._results_of_report(rep).values()]
+            if "skipped" in st and "failed" not in st:
+                run.count("skipped_without_failed")
+                run.nontrivial.add(c["id"])
+        for sig, text in runoracle.c02_success_oracle(c, r):
+            run.violation(sig, text, {"case": c, "outcome": r.get("outcome")})
     # the exit code under --exit-error-on-failure, through the real CLI, for a passing and a failing project
     if run.tier == "thorough" or True:
         for fail in (False, True):
